@@ -85,12 +85,23 @@ def addNewFlowInstance (uid : FUid) (cfg : FlowCfg) (hierPos : String) (evArgs :
     | some l => pure (some l)
     | none => pure none
   let headUid ← freshUid
-  if (lookupArg "context" evArgs).isSome then
-    if !cfg.params.isEmpty then pyRaise "ColangRuntimeError" s!"Context cannot be shared to flows with parameters: '{cfg.id}'"
-    unsupported "shared flow context (StartFlow(context=…))"
+  -- `flow_state.context = event_arguments["context"]`: the SAME dict object as the sender's context
+  let owner ← match lookupArg "context" evArgs with
+    | some (.ref "ctx" o) =>
+      if !cfg.params.isEmpty then pyRaise "ColangRuntimeError" s!"Context cannot be shared to flows with parameters: '{cfg.id}'"
+      if (← getInstX? o).isNone then unsupported "shared context whose owning instance was cleaned up"
+      pure (some o)
+    | some _ =>
+      if !cfg.params.isEmpty then pyRaise "ColangRuntimeError" s!"Context cannot be shared to flows with parameters: '{cfg.id}'"
+      unsupported "StartFlow(context=…) with something that is not a flow context"
+    | none => pure none
   let (args, ctx) ← instanceArguments cfg evArgs
-  let x : InstX := { flowId := cfg.id, loopId := loopId, hierPos := hierPos, context := ctx, arguments := args,
-                     statusUpdated := (← getRest).clock }
+  let x : InstX := { flowId := cfg.id, loopId := loopId, hierPos := hierPos, context := if owner.isSome then [] else ctx,
+                     ctxOwner := owner, arguments := args, statusUpdated := (← getRest).clock }
+  -- the return-member defaults are written into the shared dict
+  match owner with
+  | some o => modInstX o fun y => { y with context := updateArgs y.context ctx }
+  | none => pure ()
   -- add_new_flow_instance
   if (← getInstX? uid).isSome then unsupported "flow instance uid re-used"
   modifyRest fun r => { r with
@@ -252,7 +263,8 @@ def logActionOrIntents (fuel : Nat) (f : FUid) (scores : List Score) : M Unit :=
         | some v, _ => pure (some v)
         | none, some v => pure (some v)
         | none, none =>
-          if (lookupArg "_bot_intent" ux.context).isSome || (lookupArg "_user_intent" ux.context).isSome then
+          let uctx ← getCtx u
+          if (lookupArg "_bot_intent" uctx).isSome || (lookupArg "_user_intent" uctx).isSome then
             unsupported "intent taken from a `_bot_intent` / `_user_intent` context variable"
           else pure none
       match cand with
@@ -395,7 +407,7 @@ def slideStep (fuel : Nat) (f : FUid) (h : HUid) : M (Bool × List Key) := do
         | some _ => modInstX f fun x => { x with scopes := OMap.modify sc (fun p => (p.1, p.2 ++ [u])) x.scopes }
         | none => pyRaise "KeyError" s!"{sc} (model line 335)"
       match spec.ref with
-      | some r => modInstX f fun x => { x with context := setArg r (.ref "action" u) x.context }
+      | some r => setCtxVar f r (.ref "action" u)
       | none => pyRaise "AssertionError" "_new_action_instance without reference"
       setHeadPos k (hd.pos + 1)
     | .matchOp _ _ => stop := true
@@ -495,17 +507,16 @@ def slideStep (fuel : Nat) (f : FUid) (h : HUid) : M (Bool × List Key) := do
       if waiting.length ≥ num then setHeadPos k (hd.pos + 1) else stop := true
     | .assign key e =>
       let v ← evalIn f e
-      let x ← getInstX f
-      if (lookupArg s!"_global_{key}" x.context).isSome then
+      if (lookupArg s!"_global_{key}" (← getCtx f)).isSome then
         modifyRest fun r => { r with gctx := setArg key v r.gctx }
       else
-        modInstX f fun x => { x with context := setArg key v x.context }
+        setCtxVar f key v
       setHeadPos k (hd.pos + 1)
     | .ret e =>
       let v ← match e with
         | some e => evalIn f e
         | none => pure Val.none
-      modInstX f fun x => { x with context := setArg "_return_value" v x.context }
+      setCtxVar f "_return_value" v
       setHeadPos k cfg.elements.size
     | .abort =>
       let hx ← getHeadX k
@@ -529,7 +540,7 @@ def slideStep (fuel : Nat) (f : FUid) (h : HUid) : M (Bool × List Key) := do
         setHeadPos k (hd.pos + 1)
       | _ => pyRaise "ColangValueError" "priority must be a float number between 0.0 and 1.0!"
     | .glob name =>
-      modInstX f fun x => { x with context := setArg s!"_global_{name}" .none x.context }
+      setCtxVar f s!"_global_{name}" .none
       if (lookupArg name (← getRest).gctx).isNone then
         modifyRest fun r => { r with gctx := setArg name .none r.gctx }
       setHeadPos k (hd.pos + 1)
